@@ -108,6 +108,9 @@ def check(case):
         holder = _CER_HOLDER[0]
         holder.set(sut.make_cer(packages={k: v for k, v in table.items() if v is not None}))
         sut.setup_cer_based(holder)
+    elif case.get("resolver") == "formatless":
+        # evaluators as ahbicht's own factory builds them when no format is given, behind a single-set provider
+        sut.setup_hardcoded(sut.make_cer(packages={k: v for k, v in table.items() if v is not None}), formatless=True)
     else:
         sut.configure(_providers(table))
     actual = sut.call(api.resolve, text, True, True)
@@ -243,7 +246,7 @@ def strategy(tier):
             text = gen.render(draw, ast)
         used = sorted({a[1] for p in parts if p[1] is not None for a in ref.atoms_of(p[1]) if a[0] == "pkg"})
         return {"table": table, "parts": parts, "s": text, "is_ahb": is_ahb, "used": used,
-                "resolver": draw(st.sampled_from(["dict", "dict", "cer"]))}
+                "resolver": draw(st.sampled_from(["dict", "dict", "cer", "formatless"]))}
 
     return build()
 
